@@ -8,6 +8,7 @@
     The index obligations of Viterbi (history index < 244), Golay (lookup never end()), depuncture and the
     callsign codec are proved in C02 / C04 / C11 / C17 and are not restated here. *)
 From Coq Require Import NArith ZArith QArith Arith Bool String List.
+From M17 Require Import ImplGolay LemmasGolay_D LemmasGolay_E ImplCallsign LemmasCallsign.
 From M17 Require Import Checked LemmasChecked ConstsApp ImplAx25 LemmasAx25 ImplApp LemmasApp LemmasPacket ImplRxIndex LemmasRxIndex.
 Import ListNotations.
 Local Open Scope nat_scope.
@@ -135,6 +136,20 @@ Definition ex_history : list callback :=
    CbFullPacket (repeat 0%N 25 ++ [128%N]) 0%Z;
    CbLSF (repeat 0%N 30) 0%Z; CbBasicPacket (repeat 0%N 25 ++ [128%N]) 0%Z;
    CbStream ([128%N] ++ repeat 7%N 17) 12%Z; CbLICH 0%Z; CbBert (repeat 255%N 25) 0%Z].
+(** Index obligations of the receive path that live in other properties' models, re-exported here so that C07's file lists
+    every one of them (proved in C04 / C17; the Viterbi history index and the de-puncture loop bounds are part of the
+    models of C02 / C11, whose theorems hold for every input of the stated sizes):
+    - Golay24::decode: std::lower_bound never returns LUT.end() for a 24-bit word, so `it->a` is inside the table;
+    - decode_callsign: for every address the digit loop terminates having written indices 0..9 only (result has 10 chars). *)
+Theorem c07_golay_lookup_in_range : forall r : N, (r < 2 ^ 24)%N ->
+  (ImplGolay.lower_bound ImplGolay.LUT (ImplGolay.syndrome (N.shiftr r 1)) < length ImplGolay.LUT)%nat /\ ImplGolay.decode r <> ImplGolay.DEnd.
+Proof. exact lookup_never_end_lemma. Qed.
+Print Assumptions c07_golay_lookup_in_range.
+
+Theorem c07_callsign_decode_in_range : forall a : list N, exists r, ImplCallsign.decode_callsign a = Some r /\ length r = 10%nat.
+Proof. exact decode_total_lemma. Qed.
+Print Assumptions c07_callsign_decode_in_range.
+
 Example c07_history_wellformed : Forall wf_callback ex_history.
 Proof. repeat constructor. Qed.
 Example c07_history_runs :
